@@ -34,6 +34,8 @@ pub struct Spec {
     pub fillers: usize,
     pub args: String,
     pub seed: u32,
+    /// p_flags of the PT_LOAD entries (PF_X = 1, PF_W = 2, PF_R = 4); missing entries are 7
+    pub load_flags: Vec<u32>,
 }
 
 fn be16(v: &mut Vec<u8>, x: u16) {
@@ -179,7 +181,7 @@ impl Spec {
                     be32(&mut f, s.vaddr);
                     be32(&mut f, s.filesz);
                     be32(&mut f, s.memsz);
-                    be32(&mut f, 7);
+                    be32(&mut f, self.load_flags.get(*k).copied().unwrap_or(7));
                     be32(&mut f, 4);
                 }
                 Ph::Other(ty, va, ms) => {
@@ -251,6 +253,7 @@ impl Spec {
     pub fn to_json(&self) -> Value {
         json!({
             "segs": self.segs.iter().map(|s| json!([s.vaddr, s.filesz, s.memsz])).collect::<Vec<_>>(),
+            "load_flags": self.load_flags,
             "nonload": self.nonload.iter().map(|x| json!([x.0, x.1, x.2, x.3])).collect::<Vec<_>>(),
             "file_order": self.file_order,
             "got": self.got.as_ref().map(|(a, e)| json!([a, e])),
@@ -276,6 +279,7 @@ impl Spec {
             fillers: v["fillers"].as_u64()? as usize,
             args: v["args"].as_str()?.to_string(),
             seed: u(&v["seed"])?,
+            load_flags: v["load_flags"].as_array().map(|a| a.iter().map(|x| u(x).unwrap_or(7)).collect()).unwrap_or_default(),
         })
     }
 }
@@ -292,6 +296,7 @@ pub fn default_spec() -> Spec {
         fillers: 1,
         args: String::new(),
         seed: 1,
+        load_flags: Vec::new(),
     }
 }
 
@@ -701,6 +706,12 @@ pub fn specs(tier: Tier) -> Vec<Spec> {
             s.got = Some((at, (0..64).map(|i| 0x1000 * i as u32 + 0x00be0000).collect()));
             out.push(s.clone());
         }
+    }
+    // ---- factor: p_flags of the PT_LOAD entries (the loaded image does not depend on them)
+    for fl in [vec![5u32, 6], vec![4, 4], vec![1, 2], vec![0, 0], vec![6, 5]] {
+        let mut s = d.clone();
+        s.load_flags = fl;
+        out.push(s);
     }
     // ---- factor: stack sizes
     for ss in [0u32, 1, 2, 3, 4, 0x400, 0xffff, 0x10000] {
